@@ -109,7 +109,7 @@ Inexact(s, u, v) == IF ExactLeg(s, u, v) THEN 0 ELSE 1
 RouteInexact(s) ==                                           \* number of inexact legs of the closed route
   LET r == Route(s) IN
   SumTo([j \in 1..(Len(r) - 1) |-> Inexact(s, r[j], r[j + 1])], Len(r) - 1) + Inexact(s, r[Len(r)], Depot)
-SumTol(k) == IF k = 0 THEN 0 ELSE 2 + 2 * k                  \* fixed-point units for a sum with k inexact legs
+SumTol(k) == IF k = 0 THEN 0 ELSE 2 + k                      \* fixed-point units for a sum with k inexact legs
 
 (* ---------- observation (C12) ---------- *)
 (* coordinates, position, trajectory: copies; demands and capacity divided by max_capacity;
